@@ -7,4 +7,4 @@ def run(ctx):
     def extra(ctx):
         rnd = random.Random(ctx.seed * 17 + 1)
         return [ec.gen_cycle_history(rnd, 'C17_cyc_%d' % i) for i in range(2500 if ctx.quick() else 20000)]
-    engcommon.run_engine_property(ctx, 'C17', [('cycle', ec.oracle_c17)], faults=0.0, n=300, extra_hists=extra, feat=dict(dyndep=0.2))
+    engcommon.run_engine_property(ctx, 'C17', scan_accept=700, oracles=[('cycle', ec.oracle_c17)], faults=0.0, n=300, extra_hists=extra, feat=dict(dyndep=0.2))
